@@ -61,8 +61,9 @@ type task struct {
 	phase    string
 	selects  int
 	snooze   int64 // not schedulable before this decision number (unless nothing else is)
-	exiting  bool // the simulated os.Exit is unwinding this task
-	inOp     bool // between Pre and Post of an instrumented operation (operand evaluation may yield in between)
+	timer    bool  // function armed with time.AfterFunc: not a goroutine until the timer fires
+	exiting  bool  // the simulated os.Exit is unwinding this task
+	inOp     bool  // between Pre and Post of an instrumented operation (operand evaluation may yield in between)
 }
 
 // Result is what one world run reports.
@@ -94,28 +95,29 @@ func (r *Result) Signature() string {
 }
 
 type Engine struct {
-	w        *world.World
-	tasks    []*task
-	running  *task
-	burst    int64
-	burstOn  bool
-	rng      *world.Rng
-	res      *Result
-	h        interface{ Write([]byte) (int, error) }
-	hsum     func() uint64
-	keepLog  bool
-	t0       time.Time
-	stdout   bytes.Buffer
-	stderr   bytes.Buffer
-	tap      func(kind string, a, b any)
-	restarts map[int]bool
-	outs     []*tasks.Outcome
+	w         *world.World
+	tasks     []*task
+	running   *task
+	burst     int64
+	burstOn   bool
+	idleJumps int
+	rng       *world.Rng
+	res       *Result
+	h         interface{ Write([]byte) (int, error) }
+	hsum      func() uint64
+	keepLog   bool
+	t0        time.Time
+	stdout    bytes.Buffer
+	stderr    bytes.Buffer
+	tap       func(kind string, a, b any)
+	restarts  map[int]bool
+	outs      []*tasks.Outcome
 	defBudget int64
 	scale     int64
-	lastRun  int
-	siteHit  map[int32]bool
+	lastRun   int
+	siteHit   map[int32]bool
 	pctChange map[int64]bool
-	files    map[string]world.SimFile
+	files     map[string]world.SimFile
 }
 
 var cur *Engine
@@ -186,6 +188,17 @@ func install() {
 		t := e.newTask(fmt.Sprintf("lib@%d", site), true)
 		t.site = site
 		t.phase = e.running.phase
+		return t
+	}
+	verifrt.TimerHook = func(site int32) any {
+		e := cur
+		if e == nil || e.running == nil {
+			return nil
+		}
+		t := e.newTask(fmt.Sprintf("timer@%d", site), true)
+		t.site = site
+		t.phase = e.running.phase
+		t.timer = true
 		return t
 	}
 	verifrt.StartHook = func(h any) {
@@ -404,10 +417,10 @@ func (v env) Seq() int64 { return v.e.res.Decisions }
 func (v env) Event(kind, detail string) {
 	v.e.logf("ev %d %s %s", v.e.res.Decisions, kind, detail)
 }
-func (v env) Probe(name string)                  { v.e.res.Probes[name]++ }
-func (v env) SetTap(f func(string, any, any))    { v.e.tap = f }
-func (v env) Stdout() string                     { return v.e.stdout.String() }
-func (v env) Instrumented() bool                 { return true }
+func (v env) Probe(name string)               { v.e.res.Probes[name]++ }
+func (v env) SetTap(f func(string, any, any)) { v.e.tap = f }
+func (v env) Stdout() string                  { return v.e.stdout.String() }
+func (v env) Instrumented() bool              { return true }
 func (v env) Phase(name string) {
 	if t := v.e.running; t != nil {
 		t.phase = name
@@ -521,8 +534,18 @@ func (e *Engine) runPhase() {
 				e.res.Faults["clock-jump"]++
 				continue
 			}
+			// nothing can run and no task sleeps: timers the code under test armed itself (time.AfterFunc,
+			// tickers, time.After) may still be pending inside the bubble. Let an hour of simulated time
+			// pass, a few times, before calling the phase finished.
+			if e.idleJumps < 3 && e.anyUnfinished() {
+				e.idleJumps++
+				time.Sleep(time.Hour)
+				e.res.Faults["clock-jump-idle-1h"]++
+				continue
+			}
 			return
 		}
+		e.idleJumps = 0
 		var t *task
 		if forced != nil {
 			t = forced
@@ -557,6 +580,15 @@ func (e *Engine) runPhase() {
 		e.running = t
 		t.wake <- struct{}{}
 	}
+}
+
+func (e *Engine) anyUnfinished() bool {
+	for _, t := range e.tasks {
+		if t.state != stDone {
+			return true
+		}
+	}
+	return false
 }
 
 // kill wakes every parked task with the abort flag set so that it unwinds.
@@ -631,6 +663,8 @@ func (e *Engine) phaseVerdict(prop string, record bool) (fail string) {
 			if record {
 				e.viol(prop, "nontermination"+at(t.phase), "task %s: %s (after %d steps)", t.name, t.aborted, t.steps)
 			}
+		case t.timer && t.state == stSpawned:
+			// a timer that was stopped, or that never came due: no goroutine exists
 		case t.state != stDone:
 			stuck = append(stuck, e.describe(t))
 		}
@@ -863,6 +897,11 @@ func (e *Engine) bubble() {
 			for k, n := range o.Faults {
 				e.res.Faults[k] += n
 			}
+		}
+	}
+	for _, t := range e.tasks {
+		if t.timer && t.state != stSpawned {
+			e.res.Faults["timer-function-ran"]++
 		}
 	}
 	for k, n := range verifrt.SyncWaits {
